@@ -77,7 +77,14 @@ def check(ctx):
         pkgs["x/same"] = {"f.go": "package same\n\nimport \"github.com/goose-lang/goose/machine/disk\"\n\nfunc UseDisk() uint64 {\n\treturn disk.Size()\n}\n"}
         pkgs["y/same"] = {"f.go": "package same\n\nfunc Plain() uint64 {\n\treturn 1\n}\n"}
         pkgs["via"] = {"f.go": "package via\n\nimport \"example.com/m/x/same\"\n\nfunc Via() uint64 {\n\treturn same.UseDisk()\n}\n"}
-        for d in ("via", "x/same", "y/same"):
+        # packages that share TYPES: struct types and methods of one package used by others of the same invocation
+        pkgs["shapes"] = {"f.go": "package shapes\n\ntype Point struct {\n\tX uint64\n\tY uint64\n}\n\nfunc (p Point) Norm() uint64 {\n\treturn p.X + p.Y\n}\n\n"
+                                  "func (p *Point) Move(d uint64) {\n\tp.X = p.X + d\n}\n\nfunc Origin() Point {\n\treturn Point{X: 0, Y: 0}\n}\n\nfunc Far(p Point) *Point {\n\treturn &Point{X: p.X + 100, Y: p.Y}\n}\n"}
+        for nm in ("usea", "useb"):
+            pkgs[nm] = {"f.go": "package %s\n\nimport \"example.com/m/shapes\"\n\ntype Box struct {\n\tcorner shapes.Point\n\tfar *shapes.Point\n}\n\n"
+                                "func Mk(p shapes.Point) Box {\n\treturn Box{corner: p, far: shapes.Far(p)}\n}\n\n"
+                                "func Size(b Box) uint64 {\n\tb.far.Move(1)\n\treturn b.corner.Norm() + b.far.Norm() + shapes.Origin().Norm()\n}\n" % nm}
+        for d in ("via", "x/same", "y/same", "shapes", "usea", "useb"):
             dirs.append(d)
             bad[d] = False
         root = os.path.join(scratch, "m")
@@ -108,17 +115,19 @@ def check(ctx):
             for gmp, patterns in plans:
                 out = os.path.join(scratch, "out")
                 shutil.rmtree(out, ignore_errors=True)
-                rc, so, se = gomod.run_goose(root, ["-ignore-errors"], patterns, out=out, env_extra={"GOMAXPROCS": gmp})
+                ign = (stats["group_runs"] % 3 != 2)          # every third run WITHOUT -ignore-errors: failing packages write nothing
+                rc, so, se = gomod.run_goose(root, ["-ignore-errors"] if ign else [], patterns, out=out, env_extra={"GOMAXPROCS": gmp})
                 stats["group_runs"] += 1
                 matched = dirs if patterns == ["./..."] else [p[2:] for p in patterns]
                 t = gomod.tree(out)
                 got_errs = per_package_errors(se, dirs)
-                inp = {"packages": {d: pkgs[d] for d in matched[:3]}, "all_package_dirs": dirs, "patterns": patterns, "GOMAXPROCS": gmp}
+                inp = {"packages": {d: pkgs[d] for d in matched[:3]}, "all_package_dirs": dirs, "patterns": patterns, "GOMAXPROCS": gmp, "flags": ["-ignore-errors"] if ign else []}
                 if "DATA RACE" in se or (re.search(r"^goroutine \d+ \[", se, re.M) and "panic" in se):
                     viol("crash or race report", inp, "clean run", se[:1500])
                 want_files = {}
                 for d in matched:
-                    want_files.update(ref_files[d])
+                    if ign or not bad[d]:
+                        want_files.update(ref_files[d])
                 got_files = {k: v[0] for k, v in t.items()}
                 if got_files != want_files:
                     missing = sorted(set(want_files) - set(got_files))
@@ -131,6 +140,31 @@ def check(ctx):
                 expect_fail = any(bad[d] for d in matched)
                 if (rc != 0) != expect_fail:
                     viol("exit status", inp, "non-zero iff a matched package has an error", {"exit": rc})
+        # the error LIST: packages that fail to load and packages with conversion errors, of very different sizes (so the
+        # workers finish in varying order); the whole error output must be the same in every run
+        m2 = {}
+        for i in range(5):
+            filler = "".join("func F%d_%d(x uint64) uint64 {\n\treturn x + %d\n}\n\n" % (i, j, j) for j in range((5 - i) * 120 if i % 2 == 0 else 3))
+            m2["l%d" % i] = {"p.go": "package l%d\n\n%sfunc Broken() uint64 {\n\treturn undefined%d\n}\n" % (i, filler, i)}
+        for i in range(3):
+            m2["c%d" % i] = gen_pkg(rnd, "c%d" % i, 100 + i, True)
+        root2 = os.path.join(scratch, "m2")
+        gomod.write_module(root2, m2)
+        first = None
+        for r in range(8 if ctx.tier == "quick" else 40):
+            gmp = ["16", "4", "2", "1"][r % 4]
+            rc, so, se = gomod.run_goose(root2, ["-ignore-errors"], ["./..."], out=os.path.join(scratch, "out2"), env_extra={"GOMAXPROCS": gmp})
+            stats["error_list_runs"] += 1
+            if first is None:
+                first = se
+            elif se != first:
+                a, b = first.splitlines(), se.splitlines()
+                k = next((i for i in range(min(len(a), len(b))) if a[i] != b[i]), min(len(a), len(b)))
+                viol("the error list differs between two runs over the same packages",
+                     {"packages": "5 packages that do not type-check (l0..l4, sizes from 3 to 600 functions) and 3 with a conversion error (c0..c2)",
+                      "sources": {d: {f: t[:400] for f, t in fs.items()} for d, fs in m2.items()}, "patterns": ["./..."], "GOMAXPROCS": gmp, "flags": ["-ignore-errors"]},
+                     "identical error output in every run", {"first_difference_at_line": k, "run_1": a[k:k + 4], "run_%d" % (r + 1): b[k:k + 4]})
+                break
         # race detector
         nrace = 6 if ctx.tier == "quick" else 40
         for r in range(nrace):
